@@ -46,11 +46,31 @@ static void on_free(void *p)
 			return;
 		}
 }
+/* a destruction callback may be registered with a NULL cookie ("may be NULL even if user_delete is non-NULL"):
+ * the token of such a registration is kept here, by node */
+static int nulltok[MAXID + 1], pending_nulltok, pending_id;
+static int id_of(json_object *p);
 static void ud_delete(json_object *jso, void *ud)
 {
-	(void)jso;
+	long long tok = (long long)(intptr_t)ud;
+	if (!ud)
+	{
+		int id = id_of(jso);
+		tok = id > 0 ? nulltok[id] : -1;
+	}
 	if (nfired < 512)
-		fired[nfired++] = (long long)(intptr_t)ud;
+		fired[nfired++] = tok;
+}
+/* the cookie to register token `tok` on node `id` with: the token itself or, one time in three, NULL */
+static void *cookie_for(int id, int tok)
+{
+	if (vh_below(3) == 0)
+	{
+		pending_nulltok = tok;
+		pending_id = id;
+		return NULL;
+	}
+	return (void *)(intptr_t)tok;
 }
 static int ser_fn(struct json_object *jso, struct printbuf *pb, int level, int flags)
 {
@@ -227,10 +247,13 @@ static void op_new(char kind)
 	node[id] = o;
 	held[id] = 1;
 	/* the destruction callback the property speaks of */
+	pending_id = 0;
 	if (id & 1)
-		json_object_set_userdata(o, (void *)(intptr_t)id, ud_delete);
+		json_object_set_userdata(o, cookie_for(id, id), ud_delete);
 	else
-		json_object_set_serializer(o, NULL, (void *)(intptr_t)id, ud_delete);
+		json_object_set_serializer(o, NULL, cookie_for(id, id), ud_delete);
+	if (pending_id)
+		nulltok[pending_id] = pending_nulltok;
 	c->a = id;
 	c->tok = id;
 	c->kind = kind == 'o' ? "o" : kind == 'a' ? "a" : "l";
@@ -333,10 +356,14 @@ static void op_setud(int a, int tok)
 	call_t *c = mk("setud");
 	c->a = a;
 	c->tok = tok;
+	/* (the previous registration's callback runs inside these calls: its token is looked up before the table changes) */
+	pending_id = 0;
 	if (tok & 1)
-		json_object_set_userdata(node[a], (void *)(intptr_t)tok, ud_delete);
+		json_object_set_userdata(node[a], cookie_for(a, tok), ud_delete);
 	else
-		json_object_set_serializer(node[a], ser_fn, (void *)(intptr_t)tok, ud_delete);
+		json_object_set_serializer(node[a], ser_fn, cookie_for(a, tok), ud_delete);
+	if (pending_id)
+		nulltok[pending_id] = pending_nulltok;
 	emit(c);
 }
 static int copy2(json_object *src, json_object *parent, const char *key, size_t index, json_object **dst)
